@@ -1,17 +1,37 @@
 /* C08: mutual exclusion, truthful try-acquire, FIFO (queuing_mutex), no lost hand-off.
- * LOCK: 1 spin_mutex, 2 queuing_mutex ; NT threads (2|3) ; OPi: 0 blocking acquire, 1 try ; ROUNDS free rounds */
+ * LOCK: 1 spin_mutex, 2 queuing_mutex, 6 rtm_mutex (speculative spin mutex, fallback path; SPEC = governor::speculation_enabled()) ; NT threads (2|3) ; OPi: 0 blocking acquire, 1 try ; ROUNDS free rounds */
 #include "w.h"
 #include "vp.h"
-#if LOCK == 1
+#if LOCK == 1 && defined(DATA)
+#define THR(s) vp_thr_sm_d_##s
+struct S_class_tbb__detail__d1__spin_mutex M;
+#define WORD() vp_sm_word(&M)
+#elif LOCK == 2 && defined(DATA)
+#define THR(s) vp_thr_qm_d_##s
+struct S_class_tbb__detail__d1__queuing_mutex M;
+#define WORD() vp_qm_word(&M)
+#elif LOCK == 1
 #define THR(s) vp_thr_sm_##s
 struct S_class_tbb__detail__d1__spin_mutex M;
 #define WORD() vp_sm_word(&M)
+#elif LOCK == 6
+#define THR(s) vp_thr_rtm_##s
+struct S_class_tbb__detail__d1__rtm_mutex M;
+#define WORD() vp_rtm_word(&M)
+#define INIT() vp_rtm_init(&M, SPEC)
+#include "h_rtm_stubs.h"
 #else
 #define THR(s) vp_thr_qm_##s
 struct S_class_tbb__detail__d1__queuing_mutex M;
 #define WORD() vp_qm_word(&M)
 #endif
 #define CAT(a,b) a##b
+/* OPi: 0 blocking acquire, 1 try-acquire; spin_mutex only: 2 / 3 = the same through unique_scoped_lock (odd = try) */
+#define TRY0 ((OP0) & 1)
+#define TRY1 ((OP1) & 1)
+#if NT == 3
+#define TRY2 ((OP2) & 1)
+#endif
 int writers, entered[3], tried[3], try_ok[3];
 int qorder[3], nq, queued[3];      /* queue-entry order observed at slice granularity (queuing_mutex) */
 int holder_seen;                   /* lock held by somebody at the time of a try (ghost, from observer) */
@@ -37,7 +57,11 @@ static void observe_queue(int tid) { u64 w = WORD(); if (w != last_tail && w != 
 #else
 #define OBS(t)
 #endif
+#ifndef INIT
+#define INIT()
+#endif
 int main(void) {
+  INIT();
   THR(a_start)(&M, 0, OP0); THR(b_start)(&M, 1, OP1);
 #if NT == 3
   THR(c_start)(&M, 2, OP2);
@@ -57,17 +81,25 @@ int main(void) {
   __CPROVER_assume(!vp_unfinished);
   /* every blocking acquirer got the lock; a failed try is justified only if the lock was busy at some point,
      which with all threads finished means at least one other thread entered */
-  VP_ASSERT(OP0 || entered[0], "blocking acquire returned without entering");
-  VP_ASSERT(OP1 || entered[1], "blocking acquire returned without entering");
+  VP_ASSERT(TRY0 || entered[0], "blocking acquire returned without entering");
+  VP_ASSERT(TRY1 || entered[1], "blocking acquire returned without entering");
   int others0 = entered[1], others1 = entered[0];
 #if NT == 3
-  VP_ASSERT(OP2 || entered[2], "blocking acquire returned without entering");
+  VP_ASSERT(TRY2 || entered[2], "blocking acquire returned without entering");
   others0 |= entered[2]; others1 |= entered[2];
-  if (OP2 && !try_ok[2]) VP_ASSERT(entered[0] || entered[1], "try-acquire failed although nobody else ever held the lock");
+  if (TRY2 && !try_ok[2]) VP_ASSERT(entered[0] || entered[1], "try-acquire failed although nobody else ever held the lock");
 #endif
-  if (OP0 && !try_ok[0]) VP_ASSERT(others0, "try-acquire failed although nobody else ever held the lock");
-  if (OP1 && !try_ok[1]) VP_ASSERT(others1, "try-acquire failed although nobody else ever held the lock");
+  if (TRY0 && !try_ok[0]) VP_ASSERT(others0, "try-acquire failed although nobody else ever held the lock");
+  if (TRY1 && !try_ok[1]) VP_ASSERT(others1, "try-acquire failed although nobody else ever held the lock");
   VP_ASSERT(WORD() == 0, "lock word not free after all holders released");
+#ifdef DATA
+  /* DATA variants: every holder did a plain (non-atomic) data = data + 1 inside its critical section; all store buffers are drained */
+  { int n = entered[0] + entered[1];
+#if NT == 3
+    n += entered[2];
+#endif
+    VP_ASSERT(vp_data == (u64)n, "an update made inside a critical section was lost (not visible to the next holder)"); }
+#endif
   VP_REACHED();
   return 0;
 }
